@@ -84,7 +84,7 @@ func asVerifiers(vs []*SpyVerifier) []cose.Verifier {
 
 func scenarioC02(r *Run) {
 	t := r.T
-	so := SpecOpts{MaxExtra: 6, MaxSigner: 4, BigOK: r.Thorough() && t.Bool(1, 10, "c02.big")}
+	so := SpecOpts{MaxExtra: 6, MaxSigner: 4, BigOK: bigOK(r, "c02.big")}
 	if t.Bool(1, 5, "c02.manylabels") {
 		so.MaxExtra = 40
 	}
